@@ -192,8 +192,8 @@ def run_sql(ck):
         cls = (c.get("class") or [""])[0]
         if cls == "unwrap-without-parser" and c.get("err") == "process" and "labels col not inited" in c.get("err_text", "") and "unwrap-needs-parser" in known:
             ck.report_known("unwrap-needs-parser", "%s => Process error '%s'" % (c["query"], c["err_text"]))
-        if cls == "label-format-ignored" and c.get("sql") and "Map(String, String)" not in c["sql"][0] and "mapUpdate" not in c["sql"][0] and "label-format-ignored" in known:
-            ck.report_known("label-format-ignored", "%s => the SQL neither renames nor adds a label (no mapUpdate(labels, ...)), it groups by mapFilter((k,v) -> k IN ('x'), labels) of the stream labels" % c["query"])
+        if cls == "label-format-ignored":
+            ck.obligation("corpus witness: a label_format stage before any breakpoint is refused, not dropped", c.get("err") == "plan", "%s => %s" % (c["query"], (c.get("sql") or [c.get("err_text")])[0][:200]))
     # ---- spec oracle 1: the roll-up table only for representable queries
     short_bad = [c for c in allc if c.get("sql") and RE_M15.search(c["sql"][0]) and c.get("m15_spec") is False]
     ck.obligation("spec oracle: the implementation reads metrics_15s only for queries whose every stage is answerable from it (m15_representable)",
@@ -217,6 +217,16 @@ def run_sql(ck):
                           worst["n_label_filters"], len(set(re.findall(r"subsel_\d+", worst["sql"][0]))))),
                       "sql": worst["sql"][0][:3000],
                       "failing_input": "two streams matching the selector of which the label filter keeps one, one line each in one window: the reference reports one series, the SQL two",
+                      "replay": "harness logqlsql --cases <file with this case>"})
+    # ---- spec oracle 1d: no SQL for a pipeline with a stage the planners have no select for (label_format)
+    lfmt_bad = [c for c in allc if c.get("sql") and (c.get("facts") or {}).get("label_format")]
+    ck.obligation("spec oracle: a pipeline with a label_format stage is refused by the ClickHouse planners, never planned without it", not lfmt_bad,
+                  "; ".join(c["query"] for c in lfmt_bad[:3]))
+    if lfmt_bad:
+        worst = min(lfmt_bad, key=lambda c: len(c["query"]))
+        ck.violation({"property": "C08", "part": "every_stage_takes_effect", "kind": "a label_format stage written in the query has no effect: the SQL is the SQL of the query without it",
+                      "case": witness_rows(worst, "the pipeline holds a label_format stage; no select of the statement renames or adds a label"), "sql": worst["sql"][0][:3000],
+                      "failing_input": "two streams {a=\"b\",l=\"1\"} and {a=\"b\",l=\"2\"} with one line each in one window and `| label_format x=l` followed by `sum by (x)`: the reference reports two series x=1, x=2, the SQL one series with an empty label set",
                       "replay": "harness logqlsql --cases <file with this case>"})
     # ---- spec oracle 1c: HAVING only in a select that aggregates (ClickHouse rejects it otherwise): a comparison after
     # topk/bottomk must filter the rows of TopKPlanner's select, i.e. mean value <op> x, in a valid statement
@@ -310,7 +320,9 @@ def scan_source(ck):
     ck.obligation("source: PlannerDropSimple is constructed nowhere (not modelled)", not users, ", ".join(users))
     spl = src.get("planner.go", "")
     m = re.search(r"func \(p \*planner\) planSpl\(\).*?\n}\n", spl, re.S)
-    ck.obligation("source: planSpl has no branch for label_format (the model plans nothing for it)", bool(m) and "LabelFormat" not in m.group(0), "")
+    ck.obligation("source: planSpl answers a label_format stage with NotSupportedError (the model: plan_stage PLabelFormat = None) and LabelFormatPlanner is constructed nowhere",
+                  bool(m) and bool(re.search(r"ppl\.LabelFormat != nil \{\s*(//[^\n]*\n\s*)*err = &shared\.NotSupportedError", m.group(0)))
+                  and not [f for f, t in src.items() if "&LabelFormatPlanner{" in t], "")
 
 
 def run(ck):
